@@ -268,9 +268,16 @@ def patchoff_rules(ctx, facts, rep, rule="C01-PATCHOFF"):
     ok &= good
     rep.check(good, rule, "both-patch-paths", where(up, up.span), "32-bit and ZIP64 back-patch paths both present", "a back-patch path disappeared")
     # the ZIP64 local extra written up-front has the same order
-    wl = facts.one(r"^write::write_local_zip64_extra_field$")
+    wls = facts.find(r"^write::write_local_zip64_extra_field$")
+    wl = wls[0] if wls else facts.one(r"^write::write_local_file_header$")      # (the helper may have been dissolved into the header writer)
     for s in c.sequences(wl):
         ws = [e for e in s if e["kind"] == "w"]
+        if not wls:
+            # inside the header writer: the ZIP64 record is the 2,2,8,8 run that starts with the record's id (absent on the non-large path)
+            idx = [i for i in range(len(ws) - 3) if [e["width"] for e in ws[i:i + 4]] == [2, 2, 8, 8] and ws[i]["expr"][0] == "const" and ws[i]["expr"][2] == spec["zip64_extra"]["header_id"]]
+            if not idx:
+                continue
+            ws = ws[idx[0]:idx[0] + 4]
         good = [e["width"] for e in ws] == [2, 2, 8, 8] and ws[0]["expr"][2] == spec["zip64_extra"]["header_id"] and \
             ws[1]["expr"][2] == spec["zip64_extra"]["local_data_size"] and ".uncompressed_size" in tokens(ws[2]["expr"]) and ".compressed_size" in tokens(ws[3]["expr"])
         ok &= good
